@@ -23,6 +23,10 @@ func sameCode(a, b *Code) bool {
 	if a.InstructionCount() != b.InstructionCount() || a.ConstantsCount() != b.ConstantsCount() || a.NameCount() != b.NameCount() {
 		return false
 	}
+	// the source text is part of the serialised form (MarshalCode)
+	if a.Source() != b.Source() {
+		return false
+	}
 	for i := 0; i < a.InstructionCount(); i++ {
 		if a.Instruction(i) != b.Instruction(i) {
 			return false
@@ -60,15 +64,18 @@ var c05Sources = []string{
 // identical bytecode whatever order Go iterates its maps in.
 func HarnessC05CompileUnderEveryMapOrder() {
 	src := c05Sources[verifrt.Choose(len(c05Sources))]
+	// the compiler rewrites function bodies in the tree it is given, so each
+	// compilation gets its own parse of the same source
 	prog, err := parser.Parse(context.Background(), src)
-	verifrt.Assert(err == nil, "parses")
-	if err != nil {
+	prog2, errB := parser.Parse(context.Background(), src)
+	verifrt.Assert(err == nil && errB == nil, "parses")
+	if err != nil || errB != nil {
 		return
 	}
 	names := []string{"f", "g"}
 	first, err1 := Compile(prog, WithGlobalNames(names))
 	verifrt.MapOrderAll(true)
-	second, err2 := Compile(prog, WithGlobalNames(names))
+	second, err2 := Compile(prog2, WithGlobalNames(names))
 	verifrt.MapOrderAll(false)
 	verifrt.Assert(err1 == nil && err2 == nil, "compiles")
 	if err1 != nil || err2 != nil {
